@@ -320,6 +320,55 @@ def writeEv {V E : Type} (o : Oracle V E) (raw : V) (checksOk : Bool) (w : Write
 /-- `Parameter.__set__`: `obj.announceUpdate(self.name, value)` -/
 def assignEv {V E : Type} (v : V) : Ev V E := .value v true
 
+/-! ### driver methods that call the funnel themselves; requests that come through the dispatcher -/
+
+/-- the body of `read_<p>` / `write_<p>` may assign the parameter (`self.<p> = v`, any number of times) before it returns or
+raises: every assignment is a complete call of the funnel, made while the wrapper holds the access lock -/
+def innerEvs {V E : Type} (inner : List V) : List (Ev V E) := inner.map assignEv
+
+/-- all calls of the funnel one call of the read wrapper makes, in order: the assignments of the body, then the result -/
+def readEvs {V E : Type} (o : Oracle V E) (inner : List V) (res : ReadRes V E) : List (Ev V E) :=
+  innerEvs inner ++ (readEv o res).toList
+
+/-- is the body of `write_<p>` run at all?  (the argument validates, no check function raises, the method exists) -/
+def writeCalled {V E : Type} (o : Oracle V E) (raw : V) (checksOk : Bool) (w : WriteRes V) : Bool :=
+  match o.valid raw, w with
+  | .error _, _ => false
+  | .ok _, .absent => false
+  | .ok _, _ => checksOk
+
+/-- the assignments made by the body of `write_<p>` (they are announced also when the method raises afterwards) -/
+def writeInner {V E : Type} (o : Oracle V E) (raw : V) (checksOk : Bool) (inner : List V) (w : WriteRes V) : List (Ev V E) :=
+  if writeCalled o raw checksOk w then innerEvs inner else []
+
+/-- all calls of the funnel one call of the write wrapper makes: the assignments of the body of `write_<p>`, then the
+value the wrapper announces -/
+def writeEvs {V E : Type} (o : Oracle V E) (raw : V) (checksOk : Bool) (inner : List V) (w : WriteRes V) : List (Ev V E) :=
+  writeInner o raw checksOk inner w ++ (writeEv o raw checksOk w).toList
+
+/-- what `Dispatcher._setParameterValue` (dispatcher.py:156-182) needs to know about a `change` request -/
+structure ChangeReq (V : Type) where
+  readonly : Bool             -- `pobj.readonly` (or a constant): `ReadOnlyError`, nothing is touched
+  imported : Option V         -- `pobj.datatype.import_value(data)`; `none` = it raised
+  deriving Repr
+
+/-- the value handed to the write wrapper: `validate(import_value(data))` inside the access lock (`none`: refused) -/
+def changeArg {V E : Type} (o : Oracle V E) (rq : ChangeReq V) : Option V :=
+  if rq.readonly then none else
+  match rq.imported with
+  | none => none
+  | some v => match o.valid v with
+    | .ok v' => some v'
+    | .error _ => none
+
+/-- all calls of the funnel a `change` request makes (`handle_change` → `_setParameterValue` → write wrapper).  The
+connection that sent the request is NOT an argument: the funnel and the fan-out do not know it. -/
+def changeEvs {V E : Type} (o : Oracle V E) (rq : ChangeReq V) (checksOk : Bool) (inner : List V) (w : WriteRes V) :
+    List (Ev V E) :=
+  match changeArg o rq with
+  | none => []
+  | some v => writeEvs o v checksOk inner w
+
 /-- NOT part of the funnel: a direct store `pobj.value = value; pobj.readerror = None` without lock, time stamp or
 notification — what `PersistentMixin.loadParameters` did before its repair (now it hands the loaded values to
 `writeInitParams`, i.e. to the funnel).  Kept to show what any such bypass does to the statement. -/
